@@ -73,6 +73,24 @@ def expected_kept(P: TableState, new: Optional[Snap], res: dict, props: dict) ->
     return set(ids), exact
 
 
+def retention_alternatives(P: TableState, new: Optional[Snap], res: dict, props: dict,
+                           commit_order: Optional[List[int]]) -> List[set]:
+    """Other snapshot sets a retention-count of r may legitimately leave.  No listed property says WHICH r snapshots
+    the retention keeps (only that the current one survives): 'the r newest by timestamp' (what expected_kept models)
+    and 'the r most recently committed' are both accepted - they differ only under skewed clocks."""
+    r = _retention(props)
+    if new is None or r is None:
+        return []
+    ids = [s.id for s in P.snaps] + [new.id]
+    if "delete_snapshot" in res:
+        ids = [i for i in ids if i != res["delete_snapshot"]]
+    if len(ids) <= r:
+        return []
+    order = [i for i in (commit_order or []) if i in ids and i != new.id] + [new.id]
+    order = [i for i in ids if i not in order] + order
+    return [set(order[-r:]) | {new.id}]
+
+
 def refine(P: Optional[TableState], N: TableState, res: dict, commit_order: Optional[List[int]] = None
            ) -> List[Problem]:
     """Problems (clause, message) of N as the successor of P under operation `res`."""
@@ -112,7 +130,7 @@ def refine(P: Optional[TableState], N: TableState, res: dict, commit_order: Opti
     # snapshot set: the lost-update / duplication oracle
     kept, exact = expected_kept(P, new, res, exp_props)
     if exact:
-        if nids != kept:
+        if nids != kept and nids not in retention_alternatives(P, new, res, exp_props, commit_order):
             lost = sorted(kept - nids)
             extra = sorted(nids - kept)
             out.append(("R.snapshot_set", f"snapshots after commit differ from apply(base, op): "
@@ -229,7 +247,9 @@ def refine(P: Optional[TableState], N: TableState, res: dict, commit_order: Opti
             mx = 100
         if mx >= 1 and len(exp_ml) > mx:
             exp_ml = exp_ml[-mx:]
-        if N.metadata_log != exp_ml:
+        if mx < 1 and N.metadata_log == exp_ml[len(exp_ml) - len(N.metadata_log):] and len(N.metadata_log) <= len(exp_ml):
+            pass    # a bound of 0 / -1 configures nothing meaningful: any trimming of the true log is within it
+        elif N.metadata_log != exp_ml:
             out.append(("R.mlog", f"metadata log has {len(N.metadata_log)} entries "
                                   f"{[e.get('metadata-file') for e in N.metadata_log][-3:]}, expected {len(exp_ml)} "
                                   f"{[e.get('metadata-file') for e in exp_ml][-3:]}"))
